@@ -312,6 +312,7 @@ class AssessHandler(StaticHandler):
         super().__init__()
         self.choice_map_sample = choice_map_sample
         self.score = jnp.zeros(())
+        self.visited: set[StaticAddress] = set()
 
     def yield_state(self):
         return (self.score,)
@@ -325,6 +326,9 @@ class AssessHandler(StaticHandler):
         gen_fn: GenerativeFunction[Any],
         args: tuple[Any, ...],
     ):
+        if addr in self.visited:
+            raise AddressReuse(addr)
+        self.visited.add(addr)
         submap = self.get_subsample(addr)
         if submap.static_is_empty() and _makes_choices(gen_fn, args):
             raise MissingAddress(addr)
